@@ -894,7 +894,11 @@ where
                 let cell_ref = CellRef::from_raw(cell);
                 let size = cell_ref.total_size();
                 destination_offset -= size as usize;
-                self.write_item_to_offset(destination_offset as u64, cell_ref);
+                // The cell slides to the right inside the same buffer by possibly less than its
+                // own size: source and destination may overlap, so this must be a memmove.
+                let src = cell.cast::<u8>().as_ptr();
+                let dest = self.data.byte_add(destination_offset).cast::<u8>().as_ptr();
+                std::ptr::copy(src, dest, size as usize);
             }
             self.slot_array_mut()[i] = destination_offset as u16;
         }
